@@ -97,7 +97,7 @@ impl Lab for String {
 // memory layouts
 // ------------------------------------------------------------------------------------------------
 
-/// a matrix held in one of three memory layouts; `view()` always shows the same logical matrix
+/// a matrix held in one of four memory layouts; `view()` always shows the same logical matrix
 struct Laid<F> {
     h: Array2<F>,
     layout: u8,
@@ -114,6 +114,8 @@ impl<F: Fl> Laid<F> {
                 f.assign(x);
                 f
             }
+            // features stored back to front, shown through a negative column stride
+            3 => Array2::from_shape_fn((n, p), |(i, j)| x[[i, p - 1 - j]]),
             _ => {
                 // rows ::2, columns 1..p+1 of a larger junk-filled array
                 let mut big = Array2::<F>::from_elem((2 * n + 1, p + 2), F::cast(777.25));
@@ -130,6 +132,7 @@ impl<F: Fl> Laid<F> {
     fn view(&self) -> ArrayView2<'_, F> {
         match self.layout {
             0 | 1 => self.h.view(),
+            3 => self.h.slice(s![.., ..;-1]),
             _ => self.h.slice(s![..2 * self.n;2, 1..self.p + 1]),
         }
     }
@@ -1773,7 +1776,7 @@ fn kmeans_init_case<F: Fl, D: Distance<F> + std::fmt::Debug + 'static>(c: &mut C
     let tolf = F::cast(gen::log_uniform(&mut c.rng, 1e-3, 10.0));
     let tol = d(tolf);
     let seed = c.rng.gen::<u64>();
-    let layout = c.rng.gen_range(0..3u8);
+    let layout = c.rng.gen_range(0..4u8);
     c.note("n_first", json!(n1));
     c.note("p", json!(p));
     c.note("k", json!(k));
@@ -2096,7 +2099,7 @@ fn ftrl_history_case<F: Fl>(c: &mut Case, rng: &mut Rng, forced: Option<Vec<usiz
     let x = to64(&xf);
     let hy = gen_hyper(rng);
     let seed = rng.gen::<u64>();
-    let layout = rng.gen_range(0..3u8);
+    let layout = rng.gen_range(0..4u8);
     c.note("p", json!(p));
     c.note("batches", json!(nbatch));
     c.note("rows", json!(n));
@@ -2364,7 +2367,7 @@ pub fn run(ctx: &Ctx) {
         let strlab = c.idx % 7 == 3;
         let w = gen_gnb(&mut c.rng, c.tier, f32mode, None);
         let vs = vs_grid[c.rng.gen_range(0..c.tier.pick(4, 6))];
-        let layout = c.rng.gen_range(0..3u8);
+        let layout = c.rng.gen_range(0..4u8);
         match (f32mode, strlab) {
             (false, false) => gnb_case::<f64, usize>(c, &w, vs, layout),
             (true, false) => gnb_case::<f32, usize>(c, &w, vs, layout),
@@ -2377,7 +2380,7 @@ pub fn run(ctx: &Ctx) {
         let strlab = c.idx % 7 == 3;
         let w = gen_mnb(&mut c.rng, c.tier, None);
         let alpha = alpha_grid[c.rng.gen_range(0..c.tier.pick(4, 6))];
-        let layout = c.rng.gen_range(0..3u8);
+        let layout = c.rng.gen_range(0..4u8);
         match (f32mode, strlab) {
             (false, false) => mnb_case::<f64, usize>(c, &w, alpha, layout),
             (true, false) => mnb_case::<f32, usize>(c, &w, alpha, layout),
@@ -2437,7 +2440,7 @@ pub fn run(ctx: &Ctx) {
     ctx.family("kmeans-history", 15000 * scale, |c| {
         let f32mode = c.idx % 3 == 2;
         let w = gen_kmeans(&mut c.rng, c.tier, f32mode, None);
-        let layout = c.rng.gen_range(0..3u8);
+        let layout = c.rng.gen_range(0..4u8);
         let metric = match c.idx % 5 {
             3 => Metric::L1,
             4 => Metric::LInf,
